@@ -40,6 +40,10 @@ def check(ctx):
     with ctx.only(lambda k: k.startswith("comparator-coverage/") or k.startswith("comparator-length/") or k.startswith("comparator-arm/")):
         c03.comparator(ctx, "C02.9")
     G.keep_first_or_error(ctx, "C02.9")
+    # the CompactAs derive compiles only on single-field structs: eligibility is part of "the module compiles with codec derives configured"
+    from . import c08 as _c08
+    with ctx.only(lambda k: k in ("compact-as/eligibility", "compact-as/uint-set")):
+        _c08.compact_as(ctx)
     # closure of references: a type is skipped by the definer iff `substitutes.contains(path)`; it is referenced through its substitute iff the
     # look-up answers Some. The two must agree on every key of the map (same key, no extra condition on the look-up), else a reference falls back
     # to a generated path that is never defined
